@@ -22,12 +22,13 @@ type Limits struct {
 	MaxPaths  int
 	MaxSteps  int // instructions per path
 	MaxAlloc  int // cells for make() with symbolic size
-	TimeoutMs int // per solver query
+	TimeoutMs int // per solver query (assertions, models)
+	FeasMs    int // per feasibility query
 	Deadline  time.Time
 }
 
 func DefaultLimits() Limits {
-	return Limits{Unwind: 64, MaxDepth: 64, MaxPaths: 20000, MaxSteps: 2000000, MaxAlloc: 16, TimeoutMs: 20000}
+	return Limits{Unwind: 64, MaxDepth: 64, MaxPaths: 20000, MaxSteps: 2000000, MaxAlloc: 16, TimeoutMs: 20000, FeasMs: 4000}
 }
 
 // Finding is a candidate violation (assertion failure or panic) with a model.
@@ -96,6 +97,7 @@ func NewExec(p *Program, harness string, params map[string]int, lim Limits, solv
 	if err != nil {
 		return nil, err
 	}
+	sol.FeasMs = lim.FeasMs
 	ex := &Exec{prog: p, tt: tt, sol: sol, lim: lim, params: params, harness: harness,
 		regIdx: map[*ssa.Function]map[ssa.Value]int{}, regCnt: map[*ssa.Function]int{},
 		Witnesses: map[string]*Witness{}, merge: map[string]bool{}}
